@@ -471,7 +471,10 @@ def run_check(mod, tier, seed, replay=None):
             return crashed or not (isinstance(f, str) and f.startswith("implementation run did not complete"))
         small = try_shrink(modname, fam, case, still_fails)
         if small is not case:
-            io, mo = eval_family(modname, fam, [small])
+            try:
+                io, mo = eval_family(modname, fam, [small])
+            except Exception:            # the model could not be evaluated on the shrunk case: report it without
+                io, mo = eval_family(modname, fam, [small], with_model=False)
             f2, _ = judge(fam, small, io[0], mo[0])
             report("oracle", fam, small, io[0], mo[0], f2, {"original_case": case})
         else:
